@@ -363,6 +363,26 @@ func clientScenarios() []*spxScenario {
 			}
 			return x
 		}},
+		{Name: "S12-one-slot-two-callers", Role: "client", Build: func() *spxInst {
+			h := c19Client(harness.ClientOpts{ServerSettings: []peer.Setting{{ID: 3, Val: 1}}})
+			x := &spxInst{s: h.S, cl: h}
+			x.start = func() {
+				sc := h.Conns[0]
+				h.SpawnCaller(c19Spec("a", []byte("body-a")))
+				h.SpawnCaller(c19Spec("b", nil))
+				x.startEnv(
+					&harness.EnvThread{Name: "server", Steps: []harness.EnvStep{
+						{Kind: "inject", WaitHeaders: 1, Bytes: c19Resp(sc, 3, "first")},
+						{Kind: "inject", WaitHeaders: 2, Bytes: c19Resp(sc, 5, "second")},
+					}},
+					&harness.EnvThread{Name: "server1", Steps: []harness.EnvStep{
+						{Kind: "inject", Conn: 1, Bytes: frames(peer.Settings(peer.Setting{ID: 3, Val: 1}), peer.SettingsAck())},
+						{Kind: "inject", Conn: 1, WaitHeaders: 1, Bytes: c19StaticResp(1, "n1")},
+					}},
+				)
+			}
+			return x
+		}},
 		{Name: "S15-graceful-double-goaway", Role: "client", Build: func() *spxInst {
 			h := c19Client(harness.ClientOpts{})
 			x := &spxInst{s: h.S, cl: h}
